@@ -136,6 +136,36 @@ def entries():
             E['%s.%s' % (cls, meth)] = (('ndarray', 'ro-ndarray', 'ndarray-edge'), bi_query(cls, meth))
         E['%s.percent_point' % cls] = (('ndarray', 'ro-ndarray', 'ndarray-edge'), bi_ppf(cls))
 
+    def bi_fit_hair_outside(cls):
+        # pseudo-observations of which two lie a hair outside [0, 1]: whether the table is accepted is C10's business, but whatever the
+        # copula does with it, it does not do it to the caller's array
+        def mk(cont):
+            import copulas.bivariate as cb
+            X = B.bi_data('A').copy()
+            X[3, 0] = 1.0 + 5e-8
+            X[7, 1] = -5e-8
+            args = {'X': _wrap(X, cont)}
+            return args, lambda a: (lambda m: (m.fit(a['X']), m.to_dict())[1])(getattr(cb, cls)())
+        return mk
+    for cls in ('Clayton', 'Frank', 'Gumbel'):
+        E['%s.fit(hair-outside)' % cls] = (('ndarray',), bi_fit_hair_outside(cls))
+
+    def tree_lik(vt, level):
+        # the trees of a fitted vine are public objects with a public get_likelihood: level k is handed the matrix level k-1 returned
+        def mk(cont):
+            b = B.by_name('VineCopula_%s4' % vt)
+            m = b.new('c1', 0)
+            b.fit(m, 'A')
+            M = np.array([[0.3, 0.55, 0.4, 0.7]])
+            for t in m.trees[:level]:
+                M = np.array(t.get_likelihood(M)[1], dtype=float)
+            args = {'M': _wrap(M, cont)}
+            return args, lambda a: m.trees[level].get_likelihood(a['M'])
+        return mk
+    for vt in ('center', 'direct', 'regular'):
+        for level in (0, 1, 2):
+            E['Tree(%s,level %d).get_likelihood' % (vt, level + 1)] = (('ndarray', 'ro-ndarray'), tree_lik(vt, level))
+
     def sel_cop(cont):
         from copulas.bivariate import select_copula
         args = {'X': _wrap(B.bi_data('A'), cont)}
